@@ -26,13 +26,14 @@ func TestC03RealNATS(t *testing.T) {
 		cycles := rapid.SliceOfN(rapid.SampledFrom([]string{"shutdown", "outage", "appclose"}), 1, 3).Draw(rt, "cycles")
 		inflight := rapid.Bool().Draw(rt, "inflight")
 		failFirst := rapid.Bool().Draw(rt, "failFirst")
+		closedOpt := rapid.IntRange(0, 2).Draw(rt, "closedOpt")
 		workers := rapid.IntRange(1, 4).Draw(rt, "workers")
 		s := res.NewService("svc")
 		s.SetLogger(nil)
 		s.SetWorkerCount(workers)
 		s.Handle("m", res.Access(res.AccessGranted), res.GetModel(func(r res.ModelRequest) { r.Model(map[string]int{"a": 1}) }))
 		fail := func(format string, a ...interface{}) {
-			rt.Fatalf("cycles %v (in-flight callback: %v, %d workers, failed connection attempt before each: %v): %s", cycles, inflight, workers, failFirst, fmt.Sprintf(format, a...))
+			rt.Fatalf("cycles %v (in-flight callback: %v, %d workers, failed connection attempt before each: %v, closed-handler option %d): %s", cycles, inflight, workers, failFirst, closedOpt, fmt.Sprintf(format, a...))
 		}
 		for ci, how := range cycles {
 			srv, err := natsrv.Start()
@@ -63,7 +64,18 @@ func TestC03RealNATS(t *testing.T) {
 				}
 			})
 			exited := make(chan error, 1)
-			go func() { exited <- s.ListenAndServe(srv.URL, nats.ReconnectWait(20*time.Millisecond)) }()
+			opts := []nats.Option{nats.ReconnectWait(20 * time.Millisecond)}
+			if how != "appclose" {
+				// the application's own connection options: its closed handler replaces the
+				// service's, or no callbacks are made after a client side Close
+				switch closedOpt {
+				case 1:
+					opts = append(opts, nats.ClosedHandler(func(*nats.Conn) {}))
+				case 2:
+					opts = append(opts, nats.NoCallbacksAfterClientClose())
+				}
+			}
+			go func() { exited <- s.ListenAndServe(srv.URL, opts...) }()
 			select {
 			case <-started:
 			case err := <-exited:
